@@ -5,6 +5,17 @@ from ..common import Ctx, P_HOOKS, P_CONVERTERS, AnalysisError
 from ..genlint import Module, dotted, calls_in
 from . import _sitebase
 
+def genlint_walk_own(fn):
+    """Nodes of a function body without descending into nested function definitions."""
+    todo = [b for b in fn.body if not isinstance(b, (ast.FunctionDef, ast.Lambda, ast.AsyncFunctionDef))]
+    while todo:
+        n = todo.pop()
+        yield n
+        for ch in ast.iter_child_nodes(n):
+            if not isinstance(ch, (ast.FunctionDef, ast.Lambda, ast.AsyncFunctionDef)):
+                todo.append(ch)
+
+
 META = {
     "level": "other",
     "explanation": (
@@ -186,6 +197,34 @@ def run(ctx: Ctx):
               "module-level shared state exists but no module-level threading.Lock/RLock", P_HOOKS)
 
     # ---- confinement
+    def returns_own_parameter(name, _seen=()):
+        """A module-level function of _hooks.py with one parameter whose every return hands back that parameter
+        (directly, or through another such function), and which never rebinds it otherwise."""
+        f = hm.functions.get(name or "")
+        if f is None or name in _seen or len(f.args.args) != 1:
+            return False
+        prm = f.args.args[0].arg
+        rets = [n for n in genlint_walk_own(f) if isinstance(n, ast.Return)]
+        if not rets:
+            return False
+        for r in rets:
+            v = r.value
+            if isinstance(v, ast.Name) and v.id == prm:
+                continue
+            if isinstance(v, ast.Call) and len(v.args) == 1 and isinstance(v.args[0], ast.Name) and v.args[0].id == prm \
+                    and returns_own_parameter(dotted(v.func), _seen + (name,)):
+                continue
+            return False
+        for n in genlint_walk_own(f):
+            if isinstance(n, ast.Name) and n.id == prm and isinstance(n.ctx, ast.Store):
+                par = hm.parents.get(n)
+                ok = isinstance(par, ast.Assign) and isinstance(par.value, ast.Call) and len(par.value.args) == 1 \
+                    and isinstance(par.value.args[0], ast.Name) and par.value.args[0].id == prm \
+                    and returns_own_parameter(dotted(par.value.func), _seen + (name,))
+                if not ok:
+                    return False
+        return True
+
     n_calls = 0
     for fname in sorted(reach):
         fn = hm.functions[fname]
@@ -200,8 +239,16 @@ def run(ctx: Ctx):
                 nm = getattr(inner, "name", "<lambda>")
                 ctx.check(conv not in params, "converter-confined", f"{fname}.{nm}:shadow",
                           f"nested function {nm} has its own parameter named {conv}", P_HOOKS, inner.lineno)
+        # `converter = _register_part(converter)` keeps the same object when the helper returns its own parameter
+        harmless = set()
+        for st in ast.walk(fn):
+            if isinstance(st, ast.Assign) and len(st.targets) == 1 and isinstance(st.targets[0], ast.Name) \
+                    and st.targets[0].id == conv and isinstance(st.value, ast.Call) and len(st.value.args) == 1 \
+                    and not st.value.keywords and isinstance(st.value.args[0], ast.Name) and st.value.args[0].id == conv \
+                    and returns_own_parameter(dotted(st.value.func)):
+                harmless.add(id(st.targets[0]))
         for node in ast.walk(fn):
-            if isinstance(node, ast.Name) and node.id == conv and isinstance(node.ctx, ast.Store):
+            if isinstance(node, ast.Name) and node.id == conv and isinstance(node.ctx, ast.Store) and id(node) not in harmless:
                 ctx.fail("converter-confined", f"{fname}:rebinds-{conv}",
                          f"{fname} rebinds `{conv}`: hooks registered afterwards close over a different converter",
                          P_HOOKS, node.lineno)
